@@ -217,6 +217,30 @@ class Code:
             raised = type(ex).__name__
         return list(out), list(out2), pass2, raised
 
+    def two_prods(self, case):
+        """apmath.two_prod (public) on the pairs of non-zero items of a product: [x, y, h, l] as numpy scalars"""
+        fmt = case["fmt"]
+        ctx = self.ctx[fmt]
+        a = [x for x in case["a"] if x != 0]
+        b = a if case["op"] == "sq" else [x for x in case["b"] if x != 0]
+        res, seen = [], set()
+        for x in a:
+            for y in b:
+                k = (float(x), float(y))
+                if k in seen or (case["op"] == "sq" and (k[1], k[0]) in seen):
+                    continue
+                seen.add(k)
+                try:
+                    with warnings.catch_warnings(), numpy.errstate(all="ignore"):
+                        warnings.simplefilter("ignore")
+                        h, l = self.ap.two_prod(ctx, x, y)
+                    if check_dtype([h, l], fmt):
+                        continue
+                    res.append([x, y, h, l])
+                except Exception:  # noqa: the building block is not this property's subject
+                    pass
+        return res
+
     # --- traced variant
     def traced_size(self, op, size):
         """sizes for which graphs are built (keeps the number of traced graphs bounded)"""
@@ -337,7 +361,7 @@ def make_event(eid, case, res):
               a=enc(case["a"]), b=enc(case["b"]), raised=raised,
               out=[] if raised else enc(out), out2=[] if raised else enc(out2), pass2=bool(pass2) and not raised,
               dr=bool(case.get("dr", False)), skel=enc(case.get("skel", [])), rel=list(case.get("rel", [])),
-              zsum=bool(case.get("zsum", False)))
+              zsum=bool(case.get("zsum", False)), tp=[enc(t) for t in case.get("tp", [])])
     return ev
 
 
@@ -450,6 +474,8 @@ def execute(code, cases):
     results = [None] * len(cases)
     batches = {}
     for i, c in enumerate(cases):
+        if c["op"] in ("mul", "sq"):
+            c["tp"] = code.two_prods(c)
         if c["variant"] == "traced":
             key = (c["op"], len(c["a"]), len(c["b"]), c["fast"], c["size"], c["fmt"])
             batches.setdefault(key, []).append(i)
@@ -464,6 +490,8 @@ def execute(code, cases):
 
 # --------------------------------------------------------------------------- verdict plumbing
 def key_of(ev, clauses):
+    if any(c.endswith("_two_prod_inexact") for c in clauses) and all(c.startswith("ulp_bound") for c in clauses):
+        return "product:ulp_bound:two_prod_inexact"
     return "%s:%s:%s:%s" % (ev["op"], ev["variant"], "fast" if ev["fast"] else "safe", "+".join(clauses))
 
 
@@ -694,12 +722,7 @@ def replay(path):
                 a=[bits.from_bits(x, fmt) for x in e["a"]], b=[bits.from_bits(x, fmt) for x in e["b"]],
                 dr=e.get("dr", False), skel=[bits.from_bits(x, fmt) for x in e.get("skel", [])], rel=e.get("rel", []),
                 zsum=e.get("zsum", False))
-    if case["variant"] == "traced":
-        key = (case["op"], len(case["a"]), len(case["b"]), case["fast"], case["size"], fmt)
-        res = code.call_traced_batch(key, [case])[0]
-    else:
-        res = code.call_scalar(case)
-    ev = make_event(0, case, res)
+    ev = execute(code, [case])[0]
     print(json.dumps(ev))
     print(describe(ev, []))
     r = tlc.validate_events(TRACE, CFG, [ev], nproc=1)
